@@ -28,6 +28,8 @@ pub enum Pos {
     HeadPartly,
     BodyPartly,
     HandlerBlocked,
+    /// like HandlerBlocked, and a second complete request follows in the same write (HTTP/1 pipelining)
+    PipelinedHandlerBlocked,
     ResponseBodyGated,
     IdleKeepAlive,
     /// an HTTP/2 connection with these stream stages
@@ -63,7 +65,7 @@ async fn quiesce() {
     }
 }
 
-fn h1_request(id: u64, body_len: usize, gate_hdr: Option<(&str, String)>, keep_alive: bool) -> (Vec<u8>, Vec<u8>) {
+pub fn h1_request(id: u64, body_len: usize, gate_hdr: Option<(&str, String)>, keep_alive: bool) -> (Vec<u8>, Vec<u8>) {
     let mut head = format!("POST /r/{id}/s?x=1 HTTP/1.1\r\nhost: s0.test\r\nx-id: {id}\r\ncontent-length: {body_len}\r\n");
     if let Some((k, v)) = gate_hdr {
         head.push_str(&format!("{k}: {v}\r\n"));
@@ -76,7 +78,7 @@ fn h1_request(id: u64, body_len: usize, gate_hdr: Option<(&str, String)>, keep_a
 }
 
 /// read whatever arrives until EOF or until nothing more arrives at quiescence
-async fn read_available(io: &mut hyperdriver::stream::duplex::DuplexStream, into: &mut Vec<u8>) -> bool {
+pub async fn read_available(io: &mut hyperdriver::stream::duplex::DuplexStream, into: &mut Vec<u8>) -> bool {
     let mut buf = [0u8; 4096];
     loop {
         match tokio::time::timeout(Duration::from_millis(20), io.read(&mut buf)).await {
@@ -261,6 +263,19 @@ async fn run_case_inner(case: &Case) -> Vec<(String, String)> {
                         rc.body = body;
                         rc.gate = Some(g);
                     }
+                    Pos::PipelinedHandlerBlocked => {
+                        let g = format!("g{id}");
+                        let (head, body) = h1_request(id, 300, Some(("x-gate-before-response", g.clone())), true);
+                        let (head2, body2) = h1_request(id + 5000, 7, None, true);
+                        let mut all = head.clone();
+                        all.extend_from_slice(&body);
+                        all.extend_from_slice(&head2);
+                        all.extend_from_slice(&body2);
+                        let _ = io.write_all(&all).await;
+                        rc.sent_body = 300;
+                        rc.body = body;
+                        rc.gate = Some(g);
+                    }
                     Pos::ResponseBodyGated => {
                         let g = format!("g{id}");
                         let mut head = h1_request(id, 10, Some(("x-gate-response-body", g.clone())), true).0;
@@ -282,7 +297,7 @@ async fn run_case_inner(case: &Case) -> Vec<(String, String)> {
                         read_available(&mut io, &mut got).await;
                         match parse_h1_response(&got) {
                             Some(p) if p.complete => {
-                                let spec = ReqSpec { id, origin: String::new(), method: http::Method::POST, extra_path: "s".into(), query: Some("x=1".into()), h2: false, body_len: 20, chunk: 0, pending_every: 0, headers: vec![], resp_chunk: 0, unsized_body: false, http10: false };
+                                let spec = ReqSpec { id, origin: String::new(), method: http::Method::POST, extra_path: "s".into(), query: Some("x=1".into()), h2: false, body_len: 20, chunk: 0, pending_every: 0, headers: vec![], resp_chunk: 0, unsized_body: false, http10: false, root_path: 0 };
                                 for (s, m) in check_response(&spec, Some(0), http::StatusCode::from_u16(p.status).unwrap(), &p.headers, &p.body) {
                                     problems.push((format!("before-signal:{s}"), m));
                                 }
@@ -444,7 +459,7 @@ async fn run_case_inner(case: &Case) -> Vec<(String, String)> {
     // ---- judge every connection
     for c in conns.iter_mut() {
         let id = c.id;
-        let started = matches!(c.pos, Pos::BodyPartly | Pos::HandlerBlocked | Pos::ResponseBodyGated);
+        let started = matches!(c.pos, Pos::BodyPartly | Pos::HandlerBlocked | Pos::PipelinedHandlerBlocked | Pos::ResponseBodyGated);
         match &c.pos {
             Pos::ConnectAtSignal => {}
             Pos::H2Streams(_) => {
@@ -456,7 +471,7 @@ async fn run_case_inner(case: &Case) -> Vec<(String, String)> {
                         Ok(Err(e)) => problems.push(("h2-stream-task-panicked".into(), format!("{e}"))),
                         Ok(Ok(Err(e))) => problems.push((format!("h2-in-flight-stream-failed:{st:?}"), format!("stream {sid} ({st:?}) was being handled at the signal but failed: {e}"))),
                         Ok(Ok(Ok((status, headers, body)))) => {
-                            let spec = ReqSpec { id: sid, origin: String::new(), method: http::Method::POST, extra_path: "h2".into(), query: None, h2: true, body_len: 3000, chunk: 0, pending_every: 0, headers: vec![], resp_chunk: 0, unsized_body: false, http10: false };
+                            let spec = ReqSpec { id: sid, origin: String::new(), method: http::Method::POST, extra_path: "h2".into(), query: None, h2: true, body_len: 3000, chunk: 0, pending_every: 0, headers: vec![], resp_chunk: 0, unsized_body: false, http10: false, root_path: 0 };
                             for (s, m) in check_response(&spec, Some(0), status, &headers, &body) {
                                 problems.push((format!("h2-in-flight:{s}"), m));
                             }
@@ -479,7 +494,7 @@ async fn run_case_inner(case: &Case) -> Vec<(String, String)> {
                 if started {
                     match parsed {
                         Some(p) if p.complete => {
-                            let spec = ReqSpec { id, origin: String::new(), method: http::Method::POST, extra_path: "s".into(), query: Some("x=1".into()), h2: false, body_len: c.body.len(), chunk: 0, pending_every: 0, headers: vec![], resp_chunk: 0, unsized_body: false, http10: false };
+                            let spec = ReqSpec { id, origin: String::new(), method: http::Method::POST, extra_path: "s".into(), query: Some("x=1".into()), h2: false, body_len: c.body.len(), chunk: 0, pending_every: 0, headers: vec![], resp_chunk: 0, unsized_body: false, http10: false, root_path: 0 };
                             for (s, m) in check_response(&spec, Some(0), http::StatusCode::from_u16(p.status).unwrap_or(http::StatusCode::IM_A_TEAPOT), &p.headers, &p.body) {
                                 problems.push((format!("in-flight:{s}:{pos:?}"), m));
                             }
@@ -490,7 +505,7 @@ async fn run_case_inner(case: &Case) -> Vec<(String, String)> {
                 } else if let Some(p) = &parsed {
                     // not started at the signal: being served completely is fine, a mangled response is not
                     if matches!(pos, Pos::HeadPartly | Pos::Sniff(_, false)) && p.complete && p.status < 400 {
-                        let spec = ReqSpec { id, origin: String::new(), method: http::Method::POST, extra_path: "s".into(), query: Some("x=1".into()), h2: false, body_len: c.body.len(), chunk: 0, pending_every: 0, headers: vec![], resp_chunk: 0, unsized_body: false, http10: false };
+                        let spec = ReqSpec { id, origin: String::new(), method: http::Method::POST, extra_path: "s".into(), query: Some("x=1".into()), h2: false, body_len: c.body.len(), chunk: 0, pending_every: 0, headers: vec![], resp_chunk: 0, unsized_body: false, http10: false, root_path: 0 };
                         for (s, m) in check_response(&spec, Some(0), http::StatusCode::from_u16(p.status).unwrap(), &p.headers, &p.body) {
                             problems.push((format!("late-served:{s}:{pos:?}"), m));
                         }
@@ -522,7 +537,7 @@ async fn run_case_inner(case: &Case) -> Vec<(String, String)> {
 pub fn positions(proto: Proto) -> Vec<Pos> {
     let mut v = vec![Pos::ConnectAtSignal];
     if proto != Proto::H2 {
-        v.extend([Pos::AcceptedNoBytes, Pos::HeadPartly, Pos::BodyPartly, Pos::HandlerBlocked, Pos::ResponseBodyGated, Pos::IdleKeepAlive]);
+        v.extend([Pos::AcceptedNoBytes, Pos::HeadPartly, Pos::BodyPartly, Pos::HandlerBlocked, Pos::PipelinedHandlerBlocked, Pos::ResponseBodyGated, Pos::IdleKeepAlive]);
         for n in [1usize, 3, 10, 17, 23] {
             v.push(Pos::Sniff(n, false));
         }
